@@ -338,16 +338,15 @@ pub proof fn lemma_more_onsite_filter(cs: Seq<Energy>, cs2: Seq<Energy>, c: Carr
         } else { assert(!e_has_carrier(cs2.last(), c)); }
     }
 }
-/// C14 (grid delivery) at the public entry point: the same building with more on-site electricity production at any steps: the energy
-/// delivered by the grid does not increase - for any carrier at any step, over the year, and for the whole building
-pub proof fn thm_c14_grid(comps: Components, comps2: Components, w: Seq<Factor>, w2: Seq<Factor>, k_exp: f32, area: f32, lm: bool, r: Result<EnergyPerformance>, r2: Result<EnergyPerformance>)
+pub open spec fn grid_le(bcr: Map<Carrier, BalanceCarrier>, bcr2: Map<Carrier, BalanceCarrier>) -> bool {
+    bcr2.dom() =~= bcr.dom() && forall|c: Carrier| bcr.contains_key(c) ==> rv((#[trigger] bcr2[c]).del.grid_an) <= rv(bcr[c].del.grid_an)
+}
+#[verifier::spinoff_prover]
+pub proof fn lemma_c14_carriers(comps: Components, comps2: Components, k_exp: f32, lm: bool, x: EnergyPerformance, y: EnergyPerformance)
     requires comps_wf(comps.data@), comps_wf(comps2.data@), nonneg_list(comps.data@), nonneg_list(comps2.data@), more_onsite_el(comps.data@, comps2.data@),
-             ep_post(comps, w, k_exp, area, lm, r), ep_post(comps2, w2, k_exp, area, lm, r2), r is Ok, r2 is Ok,
-    ensures r2->Ok_0.balance_cr@.dom() =~= r->Ok_0.balance_cr@.dom(),
-            forall|c: Carrier| r->Ok_0.balance_cr@.contains_key(c) ==> rv((#[trigger] r2->Ok_0.balance_cr@[c]).del.grid_an) <= rv(r->Ok_0.balance_cr@[c].del.grid_an),
-            rv(r2->Ok_0.balance.del.grid) <= rv(r->Ok_0.balance.del.grid),
+             ep_carriers_ok(comps, k_exp, lm, x), ep_carriers_ok(comps2, k_exp, lm, y),
+    ensures grid_le(x.balance_cr@, y.balance_cr@),
 {
-    let x = r->Ok_0; let y = r2->Ok_0;
     let cs = comps.data@; let cs2 = comps2.data@;
     let bcr = x.balance_cr@; let bcr2 = y.balance_cr@;
     let n = nsteps(cs);
@@ -371,13 +370,30 @@ pub proof fn thm_c14_grid(comps: Components, comps2: Components, w: Seq<Factor>,
         assert forall|s: ProdSource, i: int| 0 <= i < n implies #[trigger] acc(fb, Sel::Prod(s), i) >= acc(fa, Sel::Prod(s), i) by { lemma_more_onsite_acc(fa, fb, Sel::Prod(s), i, n); }
         thm_c14_grid_carrier(a, b, lm);
     }
-    // the whole building: both totals are sums over the carriers
-    let (ord, hist) = choose|ord: Seq<Carrier>, hist: Seq<Balance>| #[trigger] bal_chain(bcr, ord, hist) && bal_initial(hist[0], comps) && hist.last() == x.balance;
-    let (ord2, hist2) = choose|ord2: Seq<Carrier>, hist2: Seq<Balance>| #[trigger] bal_chain(bcr2, ord2, hist2) && bal_initial(hist2[0], comps2) && hist2.last() == y.balance;
+}
+pub proof fn lemma_c14_total(bcr: Map<Carrier, BalanceCarrier>, bcr2: Map<Carrier, BalanceCarrier>, comps: Components, comps2: Components, bx: Balance, by: Balance)
+    requires grid_le(bcr, bcr2), ep_totals_ok(bcr, comps, bx), ep_totals_ok(bcr2, comps2, by),
+    ensures rv(by.del.grid) <= rv(bx.del.grid),
+{
+    // both totals are sums over the carriers, whatever the two visiting orders
+    let (ord, hist) = choose|ord: Seq<Carrier>, hist: Seq<Balance>| #[trigger] bal_chain(bcr, ord, hist) && bal_initial(hist[0], comps) && hist.last() == bx;
+    let (ord2, hist2) = choose|ord2: Seq<Carrier>, hist2: Seq<Balance>| #[trigger] bal_chain(bcr2, ord2, hist2) && bal_initial(hist2[0], comps2) && hist2.last() == by;
     lemma_chain_scalars(bcr, ord, hist); lemma_chain_scalars(bcr2, ord2, hist2);
     let f = |q: BalanceCarrier| rv(q.del.grid_an);
     lemma_field_sum(bcr, ord, hist, |q: Balance| rv(q.del.grid), f);
     lemma_field_sum(bcr2, ord2, hist2, |q: Balance| rv(q.del.grid), f);
     assert forall|c: Carrier| bcr.dom().contains(c) implies #[trigger] gsel(bcr2, f)(c) <= gsel(bcr, f)(c) by { assert(rv(bcr2[c].del.grid_an) <= rv(bcr[c].del.grid_an)); }
     lemma_csum_le(bcr.dom(), gsel(bcr, f), gsel(bcr2, f), carriers12());
+}
+/// C14 (grid delivery) at the public entry point: the same building with more on-site electricity production at any steps: the energy
+/// delivered by the grid does not increase - for any carrier over the year (at any step: thm_c14_grid_carrier), and for the whole building
+pub proof fn thm_c14_grid(comps: Components, comps2: Components, w: Seq<Factor>, w2: Seq<Factor>, k_exp: f32, area: f32, lm: bool, r: Result<EnergyPerformance>, r2: Result<EnergyPerformance>)
+    requires comps_wf(comps.data@), comps_wf(comps2.data@), nonneg_list(comps.data@), nonneg_list(comps2.data@), more_onsite_el(comps.data@, comps2.data@),
+             ep_post(comps, w, k_exp, area, lm, r), ep_post(comps2, w2, k_exp, area, lm, r2), r is Ok, r2 is Ok,
+    ensures grid_le(r->Ok_0.balance_cr@, r2->Ok_0.balance_cr@),
+            rv(r2->Ok_0.balance.del.grid) <= rv(r->Ok_0.balance.del.grid),
+{
+    let x = r->Ok_0; let y = r2->Ok_0;
+    lemma_c14_carriers(comps, comps2, k_exp, lm, x, y);
+    lemma_c14_total(x.balance_cr@, y.balance_cr@, comps, comps2, x.balance, y.balance);
 }
